@@ -149,3 +149,5 @@ func vfHasPrefix(b []byte, p string) bool {
 	}
 	return true
 }
+
+func vfSlotOfKey(key string) int { return int(crc16(hashtag([]byte(key)))) & (slotNum - 1) }
